@@ -118,7 +118,7 @@ def run(ctx):
         ctx.inst("C15.R3", "%s#reduction" % name, S.verdict(tuple(got), tuple(REDUCTION[name])), "computes %s; documented %s" % ([S.show(v) for v in got], [S.show(v) for v in REDUCTION[name]]), H.loc(a["body"]))
         ctx.inst("C15.R3", "%s#empty-is-error" % name, len(guards) == 1, "`if nums.is_empty() { return Err }` before the reduction: %s" % (len(guards) == 1), H.loc(a["body"]))
     # ---- R5 hand-written accumulation keeps infinities
-    ctx.rule("C15.R5", "where sum / avg / prod accumulate in a hand-written loop or fold, the running value is never subtracted from or divided by something derived from itself (inf - inf and inf / inf are NaN: a list containing an infinity would no longer sum to that infinity)", floor=3)
+    ctx.rule("C15.R5", "where sum / avg / prod accumulate in a hand-written loop or fold, the running value is never subtracted from or divided by something derived from itself (inf - inf and inf / inf are NaN: a list containing an infinity would no longer sum to that infinity), and the loop visits every element (no break / early return: a later sign or zero still counts)", floor=3)
     for name in ("Sum", "Avg", "Prod"):
         a = arms.get(name)
         if a is None:
@@ -141,6 +141,8 @@ def run(ctx):
                         if any(H.path_local(y) in tainted for y in H.walk(st_["init"]) if H.kind(y) == "Path"):
                             tainted |= set(H.pat_binds(st_["pat"]))
             for x in H.walk(body_):
+                if H.kind(x) in ("Break", "Ret") or (H.kind(x) == "MethodCall" and x["name"] in ("take_while", "skip_while", "take", "skip", "step_by")):
+                    bad.append("%s at %s (the accumulation stops before the last element)" % (H.kind(x) if H.kind(x) != "MethodCall" else x["name"], H.loc(x)))
                 if (H.kind(x) == "Binary" and x["op"] in ("Sub", "Div")) or (H.kind(x) == "AssignOp" and x["op"] in ("Sub", "Div", "SubAssign", "DivAssign")):
                     ls = [x.get("l"), x.get("r")]
                     dep = [any(H.path_local(y) in tainted for y in H.walk(o) if H.kind(y) == "Path") for o in ls if o is not None]
@@ -152,6 +154,15 @@ def run(ctx):
     ctx.rule("C15.R6", "inside a function, the spread form `sum(...xs)` reads the same xs as `sum(xs)`: the capture analysis visits the operand of a spread and every call argument", floor=2)
     from rules import c04 as c04_
     c04_.free_variable_rule(ctx, "C15.R6", core, only=lambda k: k.startswith("recurses-into=Expr::Spread") or k.startswith("recurses-into=Expr::Call"))
+
+    # ---- R7 numbers supplied as JSON inputs are the numbers the aggregates see
+    ctx.rule("C15.R7", "an aggregate over numbers that arrive as JSON inputs works on exactly those numbers (min / max / median / percentile return one of them): serde_json is built with float_roundtrip, so input text is correctly rounded", floor=1)
+    from rules import c06 as c06_
+    feats_ = c06_.serde_json_features(ctx.metadata)
+    if not feats_:
+        ctx.inst("C15.R7", "serde_json@features", None, "serde_json not found in the resolved dependency graph", None)
+    for ver_, fs_ in sorted((feats_ or {}).items()):
+        ctx.inst("C15.R7", "serde_json@features", "float_roundtrip" in fs_, "resolved features of serde_json %s: %s" % (ver_, sorted(fs_)), "blots/Cargo.toml")
 
     # ---- R4 both calling conventions are admitted by the arity table
     ctx.rule("C15.R4", "the arity table admits both calling conventions for each of min max avg sum prod median: any number of arguments >= 1 (one list, one number, or several numbers)", floor=6)
